@@ -20,12 +20,48 @@ Theorem C01_cast_typed :
     (n = NStringer r /\ assignable (d_env d) (expr_type n) t = true /\ complies_stringer (d_env d) (expr_type r) = true) \/
     (exists e, n = NCast r t e /\ expr_type n = t /\ convertible (d_env d) (expr_type r) t = true).
 Proof.
-  intros d o mpos t r n ev H. destruct (cast_node_shape d o mpos t r n ev H) as [Ha|Hs Ha Hc|e Ht Hc].
+  intros d o mpos t r n ev H. destruct (cast_node_shape d o mpos t r n ev H) as [Ha|He Hs Ha Hc|e He Ht Hc].
   - left. auto.
   - right. left. auto.
   - right. right. exists e. auto.
 Qed.
 Print Assumptions C01_cast_typed.
+
+(** "error result with nowhere to go": a call that also yields an error is never
+    wrapped in a String() call or a conversion — it is used as it stands or not at all. *)
+Theorem C01_two_valued_call_never_wrapped :
+  forall d o mpos t r n ev,
+    cast_node d o mpos t r = (Ok (Some n), ev) -> returns_error r = true -> n = r.
+Proof.
+  intros d o mpos t r n ev H Hr. destruct (cast_node_shape d o mpos t r n ev H) as [Ha|He Hs Ha Hc|e He Ht Hc];
+    [reflexivity|congruence|congruence].
+Qed.
+Print Assumptions C01_two_valued_call_never_wrapped.
+
+(** "non-addressable operand": the argument of a :conv converter is the source path
+    resolved from the root operand, yields no error of its own, and where it is fitted
+    to the pointed-to type of a pointer parameter (and so written &arg) it is a pointer
+    already or an addressable expression: a variable or a field chain through
+    addressable structs or pointers, never a call or a conversion.
+    Partial: a source of a defined pointer type (type P *T) that is assignable to the
+    parameter type *T as it stands is outside [addressable]'s reach (not generated). *)
+Theorem C01_converter_argument_partial :
+  forall d o mpos lhs rhs c a ev,
+    create_with_converter d o mpos lhs rhs c = (Ok a, ev) ->
+    a = ANoMatch lhs \/
+    exists src arg n, resolve_expr d (fc_src c) (node_root rhs) = Some src /\ returns_error src = false /\
+      conv_arg_ok d o c src arg /\ a = ASimple lhs (RNode n) (fc_err c) /\ cast_shape d o (NConv arg c) (expr_type lhs) n.
+Proof. exact create_with_converter_shape. Qed.
+Print Assumptions C01_converter_argument_partial.
+
+Example C01_addressable_examples :
+  let src := NRoot (s2b "src") (TPtr [] (TNamed 0)) in
+  let f := Field (s2b "B") [] true false [] (TBasic 2 (s2b "int")) in
+  let g := Sig [] [] [[]] [TBasic 2 (s2b "int")] false in
+  addressable (NField src f) = true /\
+  addressable (NMethod src (s2b "C") g) = false /\
+  addressable (NCast (NField src f) (TBasic 6 (s2b "int64")) (s2b "int64")) = false.
+Proof. repeat split. Qed.
 
 (** The parameter list is a comma-joined list of non-empty "name type" items: no empty slot. *)
 Theorem C01_params_nonempty_items :
